@@ -9,7 +9,7 @@ Open Scope N_scope.
 Definition plainc (c : N) : bool := negb (sml_ws c) && negb (sml_op c) && negb (sml_quote c).
 Definition flush (cur : text) (acc : list text) : list text := match cur with [] => acc | _ => rev cur :: acc end.
 
-Lemma lex_nil cur d acc : sml_lex [] cur d acc = rev acc. Proof. reflexivity. Qed.
+Lemma lex_nil d acc : sml_lex [] [] d acc = rev acc. Proof. reflexivity. Qed.
 
 Lemma lex_plain w : forall cur r acc, forallb plainc w = true -> sml_lex (w ++ r) cur 0 acc = sml_lex r (rev w ++ cur) 0 acc.
 Proof.
